@@ -244,6 +244,16 @@ def run(ctx):
     corpus.append({"files": {b"f": (b"a\nb\nc\n", 0o644), b"g": (b"a\nb\n", 0o644), b"h": (b"a\n", 0o644)}, "dirs": [], "applied": None,
                    "series": b"ok.patch\naba.patch\n",
                    "patches": {b"ok.patch": b"--- a/h\n+++ b/h\n@@ -1 +1 @@\n-a\n+A\n", b"aba.patch": fa + ga + ga.replace(b"nope2", b"nope4") + fb}})
+    # the failing patch itself holds a file patch whose target cannot be loaded: an error, whoever meets it
+    corpus.append({"files": {b"f": (b"a\nb\nc\n", 0o644), b"blocker": (b"file\n", 0o644), b"h": (b"a\n", 0o644)}, "dirs": [], "applied": None,
+                   "series": b"ok.patch\nmixed.patch\nlater.patch\n",
+                   "patches": {b"ok.patch": b"--- a/h\n+++ b/h\n@@ -1 +1 @@\n-a\n+A\n",
+                               b"mixed.patch": fa + b"--- /dev/null\n+++ b/blocker/new.txt\n@@ -0,0 +1 @@\n+x\n",
+                               b"later.patch": b"--- a/h\n+++ b/h\n@@ -1 +1 @@\n-A\n+AA\n"}})
+    corpus.append({"files": {b"f": (b"a\nb\nc\n", 0o644), b"blocker": (b"file\n", 0o644), b"h": (b"a\n", 0o644)}, "dirs": [], "applied": None,
+                   "series": b"ok.patch\nmixed.patch\n",
+                   "patches": {b"ok.patch": b"--- a/h\n+++ b/h\n@@ -1 +1 @@\n-a\n+A\n",
+                               b"mixed.patch": b"--- a/blocker/old.txt\n+++ b/blocker/old.txt\n@@ -1 +1 @@\n-x\n+y\n" + fa + ga}})
     while done < n:
         if corpus:
             w = corpus.pop(0)
